@@ -275,9 +275,9 @@ Theorem perform_join_only_if : forall i used,
   (* the remote's state passes the federation-response checks, run with the very join event that
      is handed back: the remote's copy if that is used, else the locally built one *)
   (if used then pj_check_remote i else pj_check_own i) = true /\
-  (* and its auth chain contains a create event of a known room version *)
+  (* and its auth chain contains a create event, of the room being joined, of a known room version *)
   (exists e, In e (pj_auth_events i) /\ pa_type e = m_room_create /\ pa_state_key e = Some [] /\
-             pa_content_ok e = true /\
+             pa_room_ok e = true /\ pa_content_ok e = true /\
              version_known (match pa_room_version e with [] => v_1 | v => v end) = true) /\
   (* the remote's copy of the join is used only if it is a join of this room *)
   (used = true -> exists r, pj_remote i = Some r /\ pr_parse_ok r = true /\
@@ -291,28 +291,30 @@ Qed.
 (* ---------- perform_invite (room versions with user-ID senders) ----------
    Not named by the property text; stated because the function is among the anchors.  An invite is
    handed back only for a known room version, an invitee who is not already joined, an existing
-   room, and an event the auth rules allow.  For a local invitee it is the built event (state key =
-   invitee, at most 10 auth and 20 prev events, signed under the inviter's and the invitee's server
-   names); for a remote invitee it is whatever the invited server answered: PerformInvite does not
-   examine that answer at all in these room versions (see the level note). *)
+   room, and an event the auth rules allow.  What is handed back is the built event (state key =
+   invitee, at most 10 auth and 20 prev events), signed under the inviter's server name and, for a
+   local invitee only, under the invitee's; for a remote invitee the invited server's answer is
+   taken only if it is that very event with a signature entry of the invited server added (no
+   answer at all leaves the event as sent). *)
 Theorem perform_invite_only_if : forall i,
   pir_out (perform_invite i) = OOk ->
   perform_invite_admissible i = true /\
-  (pi_target_local i = true ->
-   exists le st, pi_latest_q i = Some le /\
-     pir_event (perform_invite i) =
-       Some (PIBuilt (pi_invitee i) (pl_depth le) (truncate 10 (pl_refs le)) (truncate 20 (pl_prev le))
-                     [pi_inviter_domain i; pi_invitee_domain i] st) /\
-     (length (truncate 10 (pl_refs le)) <= 10)%nat /\ (length (truncate 20 (pl_prev le)) <= 20)%nat) /\
-  (pi_target_local i = false -> pi_send_ok i = true /\ pir_event (perform_invite i) = Some PIRemote).
+  exists le st, pi_latest_q i = Some le /\
+    let auth := truncate 10 (pl_refs le) in
+    let prev := truncate 20 (pl_prev le) in
+    (length auth <= 10)%nat /\ (length prev <= 20)%nat /\
+    let built signers := PIBuilt (pi_invitee i) (pl_depth le) auth prev signers st in
+    if pi_target_local i then
+      pir_event (perform_invite i) = Some (built (both_names (pi_inviter_domain i) (pi_invitee_domain i)))
+    else match pi_send i with
+         | PSNil => pir_event (perform_invite i) = Some (built [pi_inviter_domain i])
+         | PSSame true => pir_event (perform_invite i) = Some PIRemote
+         | _ => False
+         end.
 Proof.
-  intros i H. destruct (perform_invite_ok i H) as [A [L R]].
-  split; [exact A|]. split.
-  - intro T. destruct (L T) as [le [st [E1 E2]]]. exists le, st.
-    repeat split; try assumption; apply firstn_le.
-  - intro T. split; [|exact (R T)].
-    unfold perform_invite_admissible in A. rewrite T in A.
-    apply andb_true_iff in A. destruct A as [_ A]. exact A.
+  intros i H. destruct (perform_invite_ok i H) as [A [le [st [E B]]]].
+  split; [exact A|]. exists le, st. split; [exact E|].
+  cbv zeta. split; [apply firstn_le|]. split; [apply firstn_le|]. exact B.
 Qed.
 
 (* ---------- the oracles of the correspondence run are the theorems' right-hand sides ---------- *)
@@ -365,9 +367,9 @@ Definition ex_send_join : sj_input :=
   {| sj_version := bs "10"; sj_parse_ok := true; sj_event := JStr (bs "the event"); sj_fields := ex_fields;
      sj_req_room := bs "!room:remote"; sj_req_event_id := bs "$ev"; sj_origin := bs "remote";
      sj_local_name := bs "local"; sj_key_id := bs "ed25519:1"; sj_mapping_ok := true;
-     sj_mapping_sig_ok := true; sj_store_ok := true; sj_sender := SUser (bs "remote");
+     sj_mapping_key_ok := true; sj_mapping_sig_ok := true; sj_store_ok := true; sj_sender := SUser (bs "remote");
      sj_redact_ok := true; sj_verify := VGood; sj_membership := Some s_leave;
-     sj_authvia_domain := None |}.
+     sj_authvia_domain := None; sj_joiner_entitled := true |}.
 
 Example send_join_accepts_a_good_join_and_refuses_a_topic :
   er_out (send_join free_sign ex_send_join) = OOk /\
@@ -379,9 +381,11 @@ Example send_join_accepts_a_good_join_and_refuses_a_topic :
                                ef_content_ok := true; ef_authorised_via := [] |};
                sj_req_room := sj_req_room ex_send_join; sj_req_event_id := sj_req_event_id ex_send_join;
                sj_origin := sj_origin ex_send_join; sj_local_name := sj_local_name ex_send_join;
-               sj_key_id := sj_key_id ex_send_join; sj_mapping_ok := true; sj_mapping_sig_ok := true;
+               sj_key_id := sj_key_id ex_send_join; sj_mapping_ok := true; sj_mapping_key_ok := true;
+               sj_mapping_sig_ok := true;
                sj_store_ok := true; sj_sender := sj_sender ex_send_join; sj_redact_ok := true;
-               sj_verify := VGood; sj_membership := Some s_leave; sj_authvia_domain := None |}) = OBadJson.
+               sj_verify := VGood; sj_membership := Some s_leave; sj_authvia_domain := None;
+               sj_joiner_entitled := true |}) = OBadJson.
 Proof. split; vm_compute; reflexivity. Qed.
 
 Definition ex_invite (ty : bytes) : inv_input :=
